@@ -281,9 +281,63 @@ func (w *World) diffCause(d string) string {
 		if k == "run" {
 			return w.Taint[k]
 		}
-		return "run-" + w.Taint[k]
+		// the cascade of a tainted object reaches only the PKO objects that list it
+		if len(f) >= 3 && w.listsObject(f[1], strings.TrimSuffix(f[2], ":"), k) {
+			return "run-" + w.Taint[k]
+		}
 	}
 	return "plain"
+}
+
+// listsObject reports whether the PKO object diffKey (in cluster) lists the tainted object
+// ("cluster|key") in its phases - directly (ObjectSet, ObjectSetPhase) or through its
+// revisions (ObjectDeployment, Package).
+func (w *World) listsObject(cluster, diffKey, tainted string) bool {
+	cl := w.Cluster(cluster)
+	if cl == nil {
+		return false
+	}
+	var obj store.Obj
+	for k, o := range cl.Objs {
+		if k.String() == diffKey {
+			obj = o
+		}
+	}
+	if obj == nil {
+		return false
+	}
+	kind := store.Str(obj, "kind")
+	lists := func(owner store.Obj) bool {
+		for _, so := range SpecObjects(owner, w.sliceLookup(owner)) {
+			for _, c := range []string{"mgmt", "hosted"} {
+				if c+"|"+w.normKey(c, so.Key).String() == tainted {
+					return true
+				}
+			}
+		}
+		return false
+	}
+	switch {
+	case isObjectSetKind(kind) || isPhaseKind(kind):
+		return lists(obj)
+	case isODKind(kind):
+		for _, s := range setsOfDeployment(cl.Objs, obj) {
+			if lists(s) {
+				return true
+			}
+		}
+	case isPkgKind(kind):
+		for k, o := range cl.Objs {
+			if isODKind(k.Kind) && k.Name == store.Str(obj, "metadata", "name") && k.Namespace == store.Str(obj, "metadata", "namespace") {
+				for _, s := range setsOfDeployment(cl.Objs, o) {
+					if lists(s) {
+						return true
+					}
+				}
+			}
+		}
+	}
+	return false
 }
 
 // MonC10 only carries the exercised flag; the checks live in planC10.
@@ -294,6 +348,14 @@ func (m *MonC10) ID() string { return "C10" }
 // OnReq marks objects that received a PKO apply computed from a stale read
 // (the pass's last observation is older than the stored object it overwrote).
 func (m *MonC10) OnReq(w *World, r *Req) {
+	if r.Pass != nil && r.DryRun && r.Err != nil && dryRunViolationReasons[r.ErrReason()] {
+		// known finding (C04): a rejected dry run during teardown makes PKO abandon the object
+		if o := ownerOfPass(r.Pass); o != nil && isTeardownOwner(o) {
+			k := r.Cluster + "|" + r.Key().String()
+			w.Taint[k] = "after-dry-run-rejection-in-teardown"
+		}
+		return
+	}
 	if r.Pass == nil || r.Patch != "apply" || r.DryRun || !r.Succeeded() || !r.Changed {
 		return
 	}
